@@ -1583,4 +1583,201 @@ theorem C04_interp_last (x y c : Rat) (hc : c ≠ 1) :
   grind
 
 
+/-! ## `repeat n with v cycle s` -/
+
+/-- the start value of a cycle: the given one, else 0 -/
+def cycleStart (start : Option Val) : Val := start.getD (.int 0)
+
+theorem cycle_pre_eq (v : String) (nv : Val) (start : Option Val) :
+    genRv (.lit nv) (.to counter) ++ cycleVarRange v (start.map Rv.lit) =
+      [Instr.moveq nv (.loopVar .counter)] ++
+      ([Instr.moveq (cycleStart start) (.loopVar .first), .move (.loopVar .first) (.var v)] ++
+        cycleTail) := by
+  cases start <;> simp [cycleVarRange, genRv, counter, cycleTail, cycleStart]
+
+/-- `first := s; v := first` -/
+theorem run_start_lit (img : Image) (s0 : State) (pc h : Nat) (rest : List Frame) (v : String)
+    (sv : Val) (vars0 : List (LoopVar × Val))
+    (hs : s0.status = .running) (hpc : s0.pc = (pc : Int))
+    (hc : CodeAt img pc [Instr.moveq sv (.loopVar .first), .move (.loopVar .first) (.var v)])
+    (hst : s0.stack = .loop vars0 h :: rest) (hconst : s0.constants.get v = none)
+    (hscope : ScopeOk s0.stack) :
+    ∃ s3 rest1, run img 2 s0 = s3 ∧ s3.status = .running ∧ s3.pc = (pc : Int) + 2 ∧ s3.eval = s0.eval ∧
+      s3.stack = .loop (setLV vars0 .first sv) h :: rest1 ∧
+      s3.getVariable v = sv ∧ s3.constants = s0.constants ∧ ScopeOk s3.stack ∧ s3.regs = s0.regs := by
+  let v1 := setLV vars0 .first sv
+  let sa : State := { s0 with pc := (pc : Int) + 1, stack := .loop v1 h :: rest }
+  have ha : run img 1 s0 = sa := run_moveq_lv img s0 pc .first sv vars0 h rest hs hpc (hc.get 0 (by simp)) hst
+  have hgf : getLV v1 .first = sv := getLV_setLV_self _ _ _
+  have hcm : run img 1 sa = { sa.putVariable v sv with pc := (pc : Int) + 2 } := by
+    rw [run_move_lv_var img sa (pc + 1) .first v v1 h rest (by exact hs) (by simp [sa]) (hc.get 1 (by simp)) rfl,
+      hgf]
+    apply State.ext' <;> first | rfl | (simp; omega)
+  obtain ⟨hget, hsc, hcon, htop⟩ := putVariable_get sa v sv hconst (by rw [hst] at hscope; exact hscope.retop)
+  obtain ⟨rest1, hst3⟩ := htop v1 h rest rfl
+  refine ⟨{ sa.putVariable v sv with pc := (pc : Int) + 2 }, rest1, ?_, ?_, rfl, ?_, hst3, hget, hcon, hsc, ?_⟩
+  · exact run_trans ha hcm
+  · simpa [putVariable_status] using hs
+  · simp only []; rw [putVariable_eval]
+  · show (sa.putVariable v sv).regs = s0.regs
+    unfold State.putVariable
+    repeat' split
+    all_goals rfl
+
+/-- **cycle prologue.**  `genRv n → counter; cycleVarRange v s` with literals. -/
+theorem cycle_prologue (img : Image) (s0 : State) (pc h : Nat) (rest : List Frame) (v : String)
+    (nv : Val) (start : Option Val) (c : Rat) (fl : Bool) (m : UnitMode)
+    (hs : s0.status = .running) (hpc : s0.pc = (pc : Int))
+    (hc : CodeAt img pc (genRv (.lit nv) (.to counter) ++ cycleVarRange v (start.map Rv.lit)))
+    (hst : s0.stack = .loop [] h :: rest) (hconst : s0.constants.get v = none)
+    (hscope : ScopeOk s0.stack) (hnv : Num nv c fl) (hm : s0.regs .unitMode = .mode m) :
+    ∃ k s1 vars rest1, run img k s0 = s1 ∧ s1.status = .running ∧
+      s1.pc = (pc : Int) + 21 ∧ s1.eval = s0.eval ∧
+      s1.stack = .loop vars h :: rest1 ∧
+      Num (getLV vars .counter) c fl ∧
+      Num (getLV vars .incr) (if c = 0 then 0 else ((turnOf m : Int) : Rat) / c) (!decide (c = 0)) ∧
+      s1.getVariable v = cycleStart start ∧ s1.constants = s0.constants ∧ ScopeOk s1.stack := by
+  rw [cycle_pre_eq] at hc
+  let v0 := setLV [] .counter nv
+  let sa : State := { s0 with pc := (pc : Int) + 1, stack := .loop v0 h :: rest }
+  have ha : run img 1 s0 = sa :=
+    run_moveq_lv img s0 pc .counter nv [] h rest hs hpc (by have := hc.left.head; simpa using this) hst
+  have hcr := hc.right
+  simp only [List.length_cons, List.length_nil] at hcr
+  obtain ⟨s3, rest1, hr3, hs3, hpc3, hev3, hst3, hgv3, hcon3, hsc3, hregs3⟩ :=
+    run_start_lit img sa (pc + 1) h rest v (cycleStart start) v0 (by exact hs) (by simp [sa]) hcr.left rfl
+      (by exact hconst) (by rw [hst] at hscope; exact hscope.retop)
+  have hcnt : Num (getLV (setLV v0 .first (cycleStart start)) .counter) c fl := by
+    rw [getLV_setLV_other _ _ _ _ (by simp), getLV_setLV_self]
+    exact hnv
+  obtain ⟨k, vars', R, hrun, hR, hinc, hoth⟩ := run_cycleIncr img s3 (pc + 1 + 2) _ h rest1 c fl m hs3
+    (by rw [hpc3]; simp) (by have := hcr.right; simpa using this) hst3 hcnt (by rw [hregs3]; exact hm)
+  refine ⟨1 + (2 + k), _, vars', rest1, run_trans ha (run_trans hr3 hrun), hs3, ?_, hev3, rfl, ?_, hinc, ?_,
+    hcon3, ?_⟩
+  · simp; omega
+  · rw [hoth _ (by simp)]; exact hcnt
+  · rw [← hgv3]
+    exact getVariable_retop s3 _ _ vars' h h rest1 v hst3 rfl rfl rfl
+  · rw [hst3] at hsc3; exact hsc3.retop
+
+/-- **cycle_loop (chain form).**  `repeat n with v cycle [s]` with a literal count `n` (value
+`c`) and start `s` (value `x`; 0 when absent) and a body that does not assign `v`: `passes c`
+passes; at the start of pass `k` the variable `v` holds a number whose exact value is
+`x + k·turn/c`, where `turn` is 65536 if the unit-mode register holds `raw` when the loop
+starts and 360 otherwise; `n = 0` gives no pass and no fault. -/
+theorem C04_cycle_loop_chain (img : Image) (P0 : Nat) (b : List Instr) (v : String) (nv : Val)
+    (start : Option Val) (c x : Rat) (fl fx : Bool) (m : UnitMode) (hnv : Num nv c fl)
+    (hsv : Num (cycleStart start) x fx)
+    (hc : CodeAt img P0 (unG (assembleLoop
+      (genRv (.lit nv) (.to counter) ++ cycleVarRange v (start.map Rv.lit)) counterTest []
+      (ins b) (loopPost (some v)))))
+    (s : State) (hs : s.status = .running) (hpc : s.pc = (P0 : Int))
+    (hconst : s.constants.get v = none) (hscope : ScopeOk s.stack)
+    (hm : s.regs .unitMode = .mode m) :
+    ∃ s1 vars rest1, (∃ k, run img k s = s1) ∧ s1.status = .running ∧
+      s1.stack = .loop vars s.eval.length :: rest1 ∧ s1.getVariable v = cycleStart start ∧
+      s1.constants.get v = none ∧ ScopeOk s1.stack ∧
+      ∀ (ts : List State) (s' : State),
+        Passes (BodyRunV img b v) (enterBody (P0 + 1 + 21 + 5)) (varPost (P0 + 1 + 21) v) s1 ts s' →
+        ts.length = passes c →
+        (∃ k, run img k s = exitLoop (P0 + (b.length + 37)) s') ∧
+        (exitLoop (P0 + (b.length + 37)) s').eval = s.eval ∧
+        (∃ vars' rest', s'.stack = .loop vars' s.eval.length :: rest') ∧
+        (∀ k (hk : k < ts.length), ∃ f,
+          Num (ts[k].getVariable v)
+            (x + (k : Rat) * (if c = 0 then 0 else ((turnOf m : Int) : Rat) / c)) f) := by
+  have hprelen : (genRv (.lit nv) (.to counter) ++ cycleVarRange v (start.map Rv.lit)).length = 21 := by
+    rw [cycle_pre_eq]; rfl
+  have hlenAll : (unG (assembleLoop
+      (genRv (.lit nv) (.to counter) ++ cycleVarRange v (start.map Rv.lit)) counterTest []
+      (ins b) (loopPost (some v)))).length = b.length + 37 := by
+    rw [assembled_length, hprelen, loopPost_some_length]; omega
+  rw [assembled_counted] at hc hlenAll
+  obtain ⟨hL, hPre, _, _⟩ := loopCode_parts hc
+  obtain ⟨k0, s1, vars, rest1, hrun, hr1, hpc1, hev1, hst1, hcnt, hinc, hgv, hcon1, hsc1⟩ :=
+    cycle_prologue img (afterLoop s) (P0 + 1) s.eval.length s.stack v nv start c fl m
+      (by exact hs) (by simp [afterLoop, hpc]) hPre rfl (by exact hconst) (ScopeOk.cons_loop hscope) hnv
+      (by exact hm)
+  refine ⟨s1, vars, rest1, ⟨1 + k0, run_trans (run_loop_instr img s P0 hs hpc hL) hrun⟩, hr1, hst1, hgv,
+    by rw [hcon1]; exact hconst, hsc1, ?_⟩
+  intro ts s' hp hlen
+  obtain ⟨hrun', hev', hfr', hvals, _⟩ := var_loop_whole img P0 _ b v hc s s1 hs hpc ⟨k0, hrun⟩ hr1
+    (by rw [hpc1, hprelen]; simp) hev1 vars rest1 _ _ _ _ x fx hst1 hcnt hinc (by rw [hgv]; exact hsv)
+    ts s' (by rw [hprelen]; exact hp) hlen
+  rw [hlenAll] at hrun' hev'
+  refine ⟨hrun', hev', hfr', ?_⟩
+  intro k hk
+  rw [hvals k hk, hgv]
+  exact ⟨_, C04_series_closed_form (cycleStart start) _ x _ fx _ hsv hinc k⟩
+
+/-- no pass and no fault with a count of 0 -/
+theorem C04_cycle_zero : passes 0 = 0 := passes_nonpos (by decide)
+
+
+theorem body_at {img : Image} {P0 : Nat} {pre b post : List Instr}
+    (hc : CodeAt img P0 (loopCode pre counterTest (b ++ post))) :
+    CodeAt img (P0 + 1 + pre.length + 5) b := by
+  obtain ⟨_, _, hT, _⟩ := loopCode_parts hc
+  exact (loopTail_parts hT).2.2.1
+
+/-- **interp_loop.**  With a body that satisfies the contract from every state. -/
+theorem C04_interp_loop (img : Image) (P0 : Nat) (b : List Instr) (v : String) (nv av bv : Val)
+    (c x y : Rat) (fl fx fy : Bool) (hnv : Num nv c fl) (hav : Num av x fx) (hbv : Num bv y fy)
+    (hc : CodeAt img P0 (unG (assembleLoop
+      (genRv (.lit nv) (.to counter) ++ indexVarRange v (.lit av) (.lit bv) false) counterTest []
+      (ins b) (loopPost (some v)))))
+    (s : State) (hs : s.status = .running) (hpc : s.pc = (P0 : Int))
+    (hconst : s.constants.get v = none) (hscope : ScopeOk s.stack) (hok : BodyOkV img b v) :
+    ∃ (ts : List State) (s' : State),
+      ts.length = passes c ∧
+      (∃ k, run img k s = exitLoop (P0 + (b.length + 35)) s') ∧
+      (exitLoop (P0 + (b.length + 35)) s').eval = s.eval ∧
+      (∃ vars' rest', s'.stack = .loop vars' s.eval.length :: rest') ∧
+      (∀ k (hk : k < ts.length), ∃ f,
+        Num (ts[k].getVariable v) (x + (k : Rat) * (if c = 1 then 0 else (y - x) / (c - 1))) f) ∧
+      ∃ s1, Passes (BodyRunV img b v) (enterBody (P0 + 1 + 19 + 5)) (varPost (P0 + 1 + 19) v) s1 ts s' := by
+  obtain ⟨s1, vars, rest1, hk1, hr1, hst1, hgv, hcon1, hsc1, hall⟩ :=
+    C04_interp_loop_chain img P0 b v nv av bv c x y fl fx fy hnv hav hbv hc s hs hpc hconst hscope
+  have hB : CodeAt img (P0 + 1 + 19 + 5) b := by
+    rw [assembled_counted] at hc
+    have := body_at hc
+    rw [interp_pre_eq] at this
+    exact this
+  obtain ⟨ts, s', hp, hl⟩ := var_chain_exists img (P0 + 1 + 19) b v hB hok (passes c) s1 vars
+    s.eval.length rest1 hr1 hst1 hcon1 hsc1
+  obtain ⟨hrun, hev, hfr, hvals⟩ := hall ts s' hp hl
+  exact ⟨ts, s', hl, hrun, hev, hfr, hvals, s1, hp⟩
+
+/-- **cycle_loop.**  With a body that satisfies the contract from every state. -/
+theorem C04_cycle_loop (img : Image) (P0 : Nat) (b : List Instr) (v : String) (nv : Val)
+    (start : Option Val) (c x : Rat) (fl fx : Bool) (m : UnitMode) (hnv : Num nv c fl)
+    (hsv : Num (cycleStart start) x fx)
+    (hc : CodeAt img P0 (unG (assembleLoop
+      (genRv (.lit nv) (.to counter) ++ cycleVarRange v (start.map Rv.lit)) counterTest []
+      (ins b) (loopPost (some v)))))
+    (s : State) (hs : s.status = .running) (hpc : s.pc = (P0 : Int))
+    (hconst : s.constants.get v = none) (hscope : ScopeOk s.stack)
+    (hm : s.regs .unitMode = .mode m) (hok : BodyOkV img b v) :
+    ∃ (ts : List State) (s' : State),
+      ts.length = passes c ∧
+      (∃ k, run img k s = exitLoop (P0 + (b.length + 37)) s') ∧
+      (exitLoop (P0 + (b.length + 37)) s').eval = s.eval ∧
+      (∃ vars' rest', s'.stack = .loop vars' s.eval.length :: rest') ∧
+      (∀ k (hk : k < ts.length), ∃ f,
+        Num (ts[k].getVariable v)
+          (x + (k : Rat) * (if c = 0 then 0 else ((turnOf m : Int) : Rat) / c)) f) ∧
+      ∃ s1, Passes (BodyRunV img b v) (enterBody (P0 + 1 + 21 + 5)) (varPost (P0 + 1 + 21) v) s1 ts s' := by
+  obtain ⟨s1, vars, rest1, hk1, hr1, hst1, hgv, hcon1, hsc1, hall⟩ :=
+    C04_cycle_loop_chain img P0 b v nv start c x fl fx m hnv hsv hc s hs hpc hconst hscope hm
+  have hB : CodeAt img (P0 + 1 + 21 + 5) b := by
+    rw [assembled_counted] at hc
+    have := body_at hc
+    rw [cycle_pre_eq] at this
+    exact this
+  obtain ⟨ts, s', hp, hl⟩ := var_chain_exists img (P0 + 1 + 21) b v hB hok (passes c) s1 vars
+    s.eval.length rest1 hr1 hst1 hcon1 hsc1
+  obtain ⟨hrun, hev, hfr, hvals⟩ := hall ts s' hp hl
+  exact ⟨ts, s', hl, hrun, hev, hfr, hvals, s1, hp⟩
+
+
 end Bardolph
